@@ -248,7 +248,66 @@ func variantDesc(v Variant) string {
 	return strings.Join(ks, " ")
 }
 
+// verifyFunction verifies one function under contract. Loops that have no invariant in the contract file are handled
+// by restarts: candidate invariants that turn out not to be inductive are dropped, and a loop that runs past the
+// unwinding bound is cut with the invariant `true`; the function is then verified again. Only sound over-approximations
+// are introduced this way (a dropped candidate is never assumed; `true` with the loop's targets havocked always holds).
 func (e *Engine) verifyFunction(ct *Contract, prop string, tier string) *fnResult {
+	e.autoLoop = map[string][]int{}
+	e.autoCut = map[string]bool{}
+	var r *fnResult
+	for attempt := 0; attempt < 6; attempt++ {
+		e.autoCutWant = map[string]bool{}
+		r = e.verifyFunctionOnce(ct, prop, tier)
+		changed := false
+		for _, o := range r.Obls {
+			if strings.HasPrefix(o.ID, "auto:") && o.Status != "discharged" {
+				// "auto:<loopkey>#<idx>.<phase>"
+				rest := o.ID[5:]
+				if i := strings.LastIndex(rest, "#"); i >= 0 {
+					key := rest[:i]
+					var idx int
+					if n, _ := fmt.Sscanf(rest[i+1:], "%d", &idx); n == 1 {
+						var keep []int
+						for _, c := range e.autoLoop[key] {
+							if c != idx {
+								keep = append(keep, c)
+							}
+						}
+						if len(keep) != len(e.autoLoop[key]) {
+							e.autoLoop[key] = keep
+							changed = true
+						}
+					}
+				}
+			}
+		}
+		for k := range e.autoCutWant {
+			if !e.autoCut[k] {
+				e.autoCut[k] = true
+				changed = true
+			}
+		}
+		if !changed {
+			break
+		}
+	}
+	// obligations of the automatic loop treatment are bookkeeping, not claims
+	var keep []*Obligation
+	for _, o := range r.Obls {
+		if strings.HasPrefix(o.ID, "auto:") {
+			if o.Status == "discharged" && strings.HasSuffix(o.ID, ".preserved") && !strings.Contains(o.ID, "#true") {
+				r.Notes = append(r.Notes, "loop without a stated invariant: "+strings.TrimSuffix(o.ID[5:], ".preserved")+": candidate proved inductive and used ("+o.Clause+")")
+			}
+			continue
+		}
+		keep = append(keep, o)
+	}
+	r.Obls = keep
+	return r
+}
+
+func (e *Engine) verifyFunctionOnce(ct *Contract, prop string, tier string) *fnResult {
 	t0 := time.Now()
 	res := &fnResult{Fn: ct.Fn, ByKind: map[string]int{}}
 	if ct.Flags["trusted"] != "" {
@@ -550,7 +609,7 @@ func (e *Engine) verifyFunction(ct *Contract, prop string, tier string) *fnResul
 		groups := map[*State][]pathGoal{}
 		var order []*State
 		for _, so := range e.sideObls {
-			if prop != "" && !hasProp(so.props, prop) {
+			if prop != "" && !hasProp(so.props, prop) && !strings.HasPrefix(so.id, "auto:") {
 				continue
 			}
 			o := getObl(so.id, so.kind, so.clause, so.props, so.line)
